@@ -368,18 +368,27 @@ def Builder.processingInstruction (b : Builder) (target : StrSpan) (content : Op
     | none => spans1
   { r.1 with spans := spans2 }
 
-/-- One arm of the `match token` in `_parse`. -/
+/-- The error of `check_qname`: `UnknownPrefix("", Span::new(prefix.start(), local.end()))`. -/
+def qnameError (pfx loc : StrSpan) : ParseErr := .unknownPrefix [] ⟨pfx.start, loc.stop⟩
+
+/-- One arm of the `match token` in `_parse`. `check_qname(&prefix, &local)?` comes first in the
+    `Attribute`, `ElementStart` and `ElementEnd::Close` arms. -/
 def Builder.step (b : Builder) : Token → Step Builder
   | .attribute pfx loc value _ =>
-    if pfx.text == ['x', 'm', 'l', 'n', 's'] then b.prefix loc.text value (Span.fromPrefixName pfx loc)
+    if pfx.bareColon then .err (qnameError pfx loc) b.env
+    else if pfx.text == ['x', 'm', 'l', 'n', 's'] then b.prefix loc.text value (Span.fromPrefixName pfx loc)
     else if pfx.text.isEmpty && loc.text == ['x', 'm', 'l', 'n', 's'] then
       b.prefix [] value (Span.fromPrefixName pfx loc)
     else b.attribute pfx loc value
   | .text t => b.text t
   | .cdata t _ => b.cdata t
-  | .elementStart pfx loc _ => .ok (b.element pfx loc)
+  | .elementStart pfx loc _ =>
+    if pfx.bareColon then .err (qnameError pfx loc) b.env
+    else .ok (b.element pfx loc)
   | .elementEnd .open _ => b.openElement
-  | .elementEnd (.close pfx loc) sp => b.closeElement pfx loc sp
+  | .elementEnd (.close pfx loc) sp =>
+    if pfx.bareColon then .err (qnameError pfx loc) b.env
+    else b.closeElement pfx loc sp
   | .elementEnd .empty sp =>
     match b.openElement with
     | .ok b1 => b1.closeImmediate sp
